@@ -28,6 +28,12 @@ CLAIMED = {
 "C06": dict(ref="§3.3", technique="deterministic simulation: seeded schedule search over an enumerated configuration matrix with adopted helper goroutines",
   text="The library's Fork/Split/Join helper goroutines are adopted as simulator tasks through the rewritten go statements; feeder, readers and main are harness tasks. The small configuration matrix of the property is enumerated completely and each configuration is run under many seeded schedules (plus sampled large configurations); outputs, closure propagation, termination, wait-group balance, panics and data races are checked per run.",
   note="Same trusted base as C04; configurations enumerated, schedules sampled."),
+"C11": dict(ref="§3.4", technique="deterministic simulation: grammar-derived sentences parsed as a two-task scanner/parser simulation under several seeded schedules, strconv-evaluated meaning oracle",
+  text="Every sentence (systematic context x layout x literal matrix, must-reject literals, grammar-drawn documents up to 400 tokens) is parsed by the real scanner goroutine and recursive-descent parser under 3 (quick) or 12 (thorough) controlled schedules including parser-first and scanner-first extremes; the parsed value is walked through the public API and compared with the derivation tree evaluated by strconv, and all schedules must agree. The harness refuses to run when the repository's grammar file no longer matches its encoding.",
+  note="Trusts strconv as the definition of literal meaning, the library collator for Set order, the harness's encoding of the grammar (cross-checked against Syntax.cdsn at start-up) and the simulator model."),
+"C12": dict(ref="§3.5", technique="deterministic simulation with fault injection: the token consumer (parser) dies by panic at an arbitrary token while the producer (scanner) is mid-stream; quiescence detection after main ends",
+  text="Malformed inputs of ten classes are parsed as a two-task simulation; the parser's own panic is the injected fault. After the main task has ended the scheduler keeps running, so a scanner goroutine left blocked on the full token queue is a deadlock the simulator sees; runtime errors, non-diagnostic panics, wrong or impossible diagnostic positions (checked against the harness's own tokenizer and viable-prefix recogniser) and hangs are violations. A worker killed by a fatal stack overflow is attributed to its announced input.",
+  note="Trusts the harness tokenizer/recogniser (written from the grammar file) for the position oracle, applied only to token-level inputs; other inputs get the weaker check that the named token text really begins at the reported position."),
 }
 ORDER = ["C04","C05","C06","C11","C12","C19"]
 checks = []
